@@ -6,7 +6,8 @@ enum { M_INVALID = 0, M_INIT, M_PREOP, M_OP, M_STOP };
 static struct { uint8_t mode, lss_conf, emcy0, stopped; uint8_t p8; } M;
 
 static const uint8_t CS[] = { 1, 2, 128, 129, 130, 0, 3, 127, 255 };
-enum { E_NMT0 = 0, E_SETMODE0 = 27, E_START = 30, E_RESET_NODE, E_RESET_COM, E_STOPNODE, E_P_SDO, E_P_RPDO, E_P_SYNC, E_P_HBMON, E_P_HBFOREIGN,
+#define NT 5           /* NMT targets: own id, 0 (all), another id, 80h | own id, 80h - a node id is the whole byte, not its low seven bits */
+enum { E_NMT0 = 0, E_SETMODE0 = 9 * NT, E_START = 9 * NT + 3, E_RESET_NODE, E_RESET_COM, E_STOPNODE, E_P_SDO, E_P_RPDO, E_P_SYNC, E_P_HBMON, E_P_HBFOREIGN,
        E_P_LSS_CONF, E_P_LSS_WAIT, E_P_LSS_INQ, E_P_FOREIGN, E_P_OWN_SDO, E_P_OWN_HB, E_P_OWN_PDO, E_EMCY_SET, E_EMCY_CLR, E_TRIG, E_TICK, E_TRIG2, E_N };
 static uint8_t NID;
 
@@ -43,7 +44,7 @@ static const char *ev_name(int e)
     static const char *const N[] = { "CONodeStart", "CONmtReset(node)", "CONmtReset(com)", "CONodeStop", "probe:SDO upload 1000h", "probe:RPDO frame", "probe:SYNC", "probe:heartbeat of monitored node",
         "probe:heartbeat of unmonitored node", "probe:LSS switch global(configuration)", "probe:LSS switch global(waiting)", "probe:LSS inquire node-id", "probe:foreign identifier 123h",
         "probe:own SDO response id", "probe:own heartbeat id", "probe:own TPDO id", "COEmcySet(0)", "COEmcyClr(0)", "COTPdoTrigPdo(0)", "tick", "COTPdoTrigPdo(2) (timer-driven TPDO)" };
-    if (e < E_SETMODE0) { int t = e % 3; snprintf(b, sizeof b, "NMT cs=%d target=%s", CS[e / 3], t == 0 ? "own" : t == 1 ? "0(all)" : "other"); }
+    if (e < E_SETMODE0) { int t = e % NT; snprintf(b, sizeof b, "NMT cs=%d target=%s", CS[e / NT], t == 0 ? "own" : t == 1 ? "0(all)" : t == 2 ? "other" : t == 3 ? "80h|own" : "80h"); }
     else if (e < E_START) snprintf(b, sizeof b, "CONmtSetMode(%s)", e == E_SETMODE0 ? "PREOP" : e == E_SETMODE0 + 1 ? "OPERATIONAL" : "STOP");
     else snprintf(b, sizeof b, "%s", N[e - E_START]);
     return b;
@@ -80,7 +81,8 @@ static int step(int e)
     if (e >= E_SETMODE0 && e < E_START && (M.mode == M_INIT || M.mode == M_INVALID)) return MC_SKIP;
     /* ---- apply + expectation ---- */
     if (e < E_SETMODE0) {
-        uint8_t cs = CS[e / 3], tgt = (e % 3) == 0 ? NID : (e % 3) == 1 ? 0 : (uint8_t)(NID == 127 ? 1 : NID + 1);
+        int tk = e % NT;
+        uint8_t cs = CS[e / NT], tgt = tk == 0 ? NID : tk == 1 ? 0 : tk == 2 ? (uint8_t)(NID == 127 ? 1 : NID + 1) : tk == 3 ? (uint8_t)(0x80 | NID) : 0x80;
         if (M.mode == M_INIT) unclaimed();                          /* no NMT service during initialisation */
         else if (tgt == NID || tgt == 0) {
             if (cs == 1) model_set_mode(M_OP); else if (cs == 2) model_set_mode(M_STOP); else if (cs == 128) model_set_mode(M_PREOP);
